@@ -69,8 +69,11 @@ class Emitter(object):
     SAFE_GLUE = set('();,[]')
 
     def __init__(self, rng=None, layout='canonical', case='lower', optional=None, extra_parens=0.0,
-                 newline_in_end=True, comments=True):
+                 newline_in_end=True, comments=True, case_rng=None):
         self.rng = rng
+        # the letter case of keywords may be drawn from a generator of its own, so that two renderings of one tree
+        # with the same layout generator state differ in nothing but the letter case of keywords
+        self.case_rng = case_rng or rng
         self.layout = layout
         self.case = case
         self.optional = optional           # None: random per site, True/False: always/never
@@ -188,7 +191,7 @@ class Emitter(object):
             return word.upper()
         if c == 'capital':
             return word.capitalize()
-        return ''.join(ch.upper() if self.rng.random() < 0.5 else ch.lower() for ch in word)
+        return ''.join(ch.upper() if self.case_rng.random() < 0.5 else ch.lower() for ch in word)
 
     def end_kw(self, word):
         '''"end if" / "end for" / "end while": one token with inner white space'''
